@@ -5,6 +5,7 @@
 using namespace rg;
 
 // kind 0: block read (addr, n); kind 1: iteration (addr, n, script: stop kind s at k-th call; s 0 never, 1 positive, 2 negative,
+// 4: the iteration runs from an area's write callback while register_init loads its k-th default through a callback
 // 3: at the k-th call the callback itself iterates another range of the same table (k odd: one that ends earlier, k even: one that ends later) and goes on)
 struct Case { TableD t; std::vector<std::vector<uint16_t>> content; int kind; uint32_t addr, n; int s; unsigned k; unsigned toggle = 0; };   // toggle: 1 + index of an area whose READABLE flag is flipped after initialisation (run-time lock / unlock)
 static Case g_cur;
@@ -29,8 +30,27 @@ static int iter_cb(RegisterTable *t, RegisterHandle h, void *arg) {
 static std::string run_case(const Case &c0, std::string &msg) {
     g_cur = c0;
     Live lv(c0.t);
+    IterCtx during; unsigned nwrites = 0;
+    if (c0.kind == 1 && c0.s == 4) {
+        // s == 4: the iteration happens while register_init is still at work - from the write callback of a callback-backed area at the k-th
+        // default it is handed (the library raises its "initialised" mark before it loads defaults precisely so that its API works from there)
+        cb_write_hook() = [&](RegisterArea *) { if (++nwrites == c0.k) { during.inner_ran = true; during.inner_rc = register_foreach_in(&lv.t, c0.addr, c0.n, inner_cb, &during); } };
+    }
     RegisterInit in = lv.init();
+    cb_write_hook() = nullptr;
     if (in.code != REG_INIT_SUCCESS) { msg = vp::fmt("valid table refused: code %d", (int)in.code); return "init:refused"; }
+    if (c0.kind == 1 && c0.s == 4) {
+        vp::count();
+        if (!during.inner_ran) return "";      // fewer than k defaults go through a write callback in this table
+        std::vector<uint32_t> want;
+        for (size_t ri = 0; ri < c0.t.regs.size(); ri++) if (c0.n && c0.t.regs[ri].end() > c0.addr && c0.t.regs[ri].addr < c0.addr + c0.n) want.push_back((uint32_t)ri);
+        vp::cls("iteration-from-a-write-callback-during-register_init");
+        if (during.inner != want || during.inner_rc.code != REG_ACCESS_SUCCESS) {
+            msg = vp::fmt("iteration over [%u,+%u) from the area's write callback while register_init loaded default %u visited %zu registers (%s), expected %zu", c0.addr, c0.n, c0.k, during.inner.size(), code_name(during.inner_rc.code), want.size());
+            return "iterate:during-init:wrong-registers";
+        }
+        return "";
+    }
     Case c = c0;
     if (c.toggle && c.toggle <= c.t.areas.size()) {
         // the flag lives in the caller's area description; whether a word is readable is what the flag says when the read happens
@@ -200,6 +220,8 @@ static void run() {
         for (auto &ar : m.mem) for (auto &w : ar) w = (uint16_t)(rng.next() | 1);   // never zero: a zeroed write-only area must be distinguishable
         c.content = m.mem;
         uint32_t lo = c.t.areas.front().base >= 2 ? c.t.areas.front().base - 2 : 0, hi = c.t.areas.back().end() + 2;
+        // number of defaults that reach a write callback during register_init (registers of callback-backed areas that load defaults)
+        unsigned ncbdef = 0; { rm::Space mm; mm.init(c.t); for (auto &r : c.t.regs) { const AreaD &ra = c.t.areas[(size_t)mm.area_of(r.addr)]; if (!ra.membacked && ra.has_write && !ra.skip_defaults) ncbdef++; } }
         std::vector<std::pair<uint32_t, uint32_t>> windows;
         if (hi - lo <= 120) { for (uint32_t addr = lo; addr < hi; addr++) for (uint32_t n = 0; addr + n <= hi; n++) windows.push_back({addr, n}); }
         else {
@@ -230,6 +252,11 @@ static void run() {
                     key = run_case(c, msg);
                     if (!key.empty()) vp::fail(key, msg, ser_case(c));
                     if (vp::want_sample() && c.content.size() && c.content[0].size() < 400) vp::sample(ser_case(c));
+                }
+                if (ncbdef && nov) for (unsigned k = 1; k <= ncbdef && k <= 3; k++) {
+                    c.kind = 1; c.s = 4; c.k = k;
+                    key = run_case(c, msg);
+                    if (!key.empty()) vp::fail(key, msg, ser_case(c));
                 }
                 if (nov && (start_in_gap || inside_multi)) { vp::nontrivial(vp::mix(vp::fnv(rm::ser(c.t)), addr * 64 + n + 7777777)); vp::cls(start_in_gap ? "iteration-starts-in-gap-or-hole" : "iteration-starts-inside-multiword-register"); }
             } }
